@@ -572,6 +572,7 @@ def _explore(scen, prop, seed, known, stop_flag, roots, frontier_depth=None, pat
 def _worker(args):
     i, roots = args
     j = _JOB
+    _die_with_parent()
     _monitor_reset()
     return _explore(j["scen"], j["prop"], j["seed"] + 1 + i, j["known"], j["stop"], roots, path_budget=j["budget"])
 
@@ -619,8 +620,18 @@ def run_scenario(scen, prop, seed, known, engine_hooks=()):
     return merge(scen, results, time.time() - t0, len(roots))
 
 
+def _die_with_parent():
+    """a forked scenario/worker process must not outlive the check that started it (e.g. when the check is killed by a time-out)"""
+    try:
+        import ctypes, signal
+        ctypes.CDLL("libc.so.6", use_errno=True).prctl(1, signal.SIGKILL)      # PR_SET_PDEATHSIG
+    except Exception:
+        pass
+
+
 def _scenario_child(conn, scen, prop, seed, known):
     from . import inject
+    _die_with_parent()
     try:
         restore = inject.install(scen.domains)
         try:
